@@ -5,10 +5,10 @@ set -u
 patch="$1"; prop="$2"; shift 2
 cd /repo || exit 2
 if [ -n "$(git status --porcelain)" ]; then echo "/repo not clean"; exit 2; fi
-git apply "$patch" || { echo "patch does not apply"; exit 2; }
+git apply "$patch" 2>/dev/null || git apply -3 "$patch" || { echo "patch does not apply"; git reset -q --hard HEAD; exit 2; }
 cd /verif
 /venv/bin/python -m sim.run --property "$prop" --evidence /tmp/evidence_try_$prop.json "$@"
 rc=$?
-git -C /repo checkout -- .
+git -C /repo reset -q --hard HEAD
 echo "check exit code: $rc"
 exit $rc
